@@ -1,26 +1,30 @@
 /-
-Error detection of the Bech32 / Bech32m / CashAddr checksums (substitution errors in the data part).
+Error detection of the Bech32 / Bech32m / CashAddr checksums (substitution errors in the data part),
+part 1: the generic reduction, and one / two substituted symbols.
 
 BIP-173 promises "any error affecting at most 4 characters is detected" (strings ≤ 90 characters).
-The full distance-5 statement is a 10^12-scale search and is NOT proved here.  What is proved, on
-the model's own functions `bech32Verify` / `bchVerify`, for either Bech32 constant and ANY HRP:
+Proved in this file, on the model's own functions `bech32Verify` / `bchVerify`, for either Bech32
+constant and ANY HRP:
 
-  * 1 substituted symbol is detected — for every length;
-  * 2 substituted symbols are detected — data part of at most 1023 symbols (the BCH code length;
-    the HRP may be arbitrarily long);
-  * 3 substituted symbols are detected — data part of at most 89 symbols (BIP-173's range).
-  * CashAddr: 1 substituted symbol (every length), 2 substituted symbols (data part ≤ 1023 symbols).
+  * Bech32(m): 1 substituted symbol is detected — for every length;
+               2 substituted symbols — data part of at most 1023 symbols (the BCH code length;
+               the HRP may be arbitrarily long; the bound is sharp, `x^1023 = 1`);
+  * CashAddr:  1 substituted symbol (every length), 2 substituted symbols (data part ≤ 1025).
+
+Three and four substituted symbols are in `BechDistanceVec.lean` (lane-parallel kernel evaluation).
 
 Method.  The register is GF(2)-linear (`pmRun_linear`), so two equal-length strings that both verify
-differ by an error vector `e` whose homogeneous syndrome `pmRun W G 0 e` is zero.  With the errors
-`a, b, c` at distances `k2, k1` this syndrome is `x^r (x^k1 (x^k2 a ^^^ b) ^^^ c)` where
-`x = (c ↦ pmStep W G c 0)`.  `x` has trivial kernel on register states (32-case `decide`), and the
-facts "`x^k a ≥ 32`", "`x^k1 (x^k2 a ^^^ b) ≥ 32`" are established by kernel evaluation
-(`decide +kernel`) of Bool-valued checkers written with `Nat.rec` over a table-driven copy of the
-step function (proved equal to `pmStep` on register states).
+differ by an error vector `e` whose homogeneous syndrome `pmRun W G 0 e` is zero (`syndrome_zero`).
+With errors `a, b, c, …` at distances `k2, k1, …` the syndrome is
+`x^r (… x^k1 (x^k2 a ^^^ b) ^^^ c …)` where `x = (c ↦ pmStep W G c 0)` (`mulX`).  `x` has trivial
+kernel on register states (32-case `decide`), so the trailing `x^r` is harmless and the last error
+symbol never has to be enumerated: it suffices that the state before it is `≥ 32`
+(`weight_one … weight_three`, `tail_one`, `tail_two`).  The facts "`x^k a ≥ 32`" are established by
+kernel evaluation (`decide +kernel`) of a Bool-valued checker written with `Nat.rec` over a
+table-driven copy of the step function (proved equal to `pmStep` on register states).
 
-Scope: substitutions only (no insertions / deletions / transpositions-as-such), errors in the data
-part (payload + checksum symbols) only, same HRP and same checksum constant on both sides.
+Scope: substitutions only (no insertions / deletions), errors in the data part (payload + checksum
+symbols, as 5-bit values) only, same HRP and same checksum constant on both sides.
 -/
 import BipVerif.Lemmas.Polymod
 
@@ -316,27 +320,11 @@ noncomputable def loopA (f : Nat → Nat) (n : Nat) (A : Nat) : Bool :=
   Nat.rec (motive := fun _ => Bool) true
     (fun a ih => Bool.rec false ih (runOK f n (Nat.succ a))) A
 
-/-- `runOK f n (s ^^^ b)` for `b = B, B-1, …, 1`. -/
-noncomputable def loopB (f : Nat → Nat) (n : Nat) (s : Nat) (B : Nat) : Bool :=
-  Nat.rec (motive := fun _ => Bool) true
-    (fun b ih => Bool.rec false ih (runOK f n (Nat.xor s (Nat.succ b)))) B
-
-/-- for `k2 = 1 … n`: `loopB f (n - k2) (f^k2 s) 31`. -/
-noncomputable def loopK (f : Nat → Nat) (n : Nat) : Nat → Bool :=
-  Nat.rec (motive := fun _ => Nat → Bool) (fun _ => true)
-    (fun n ih s => Bool.rec false (ih (f s)) (loopB f n (f s) (nat_lit 31))) n
-
 theorem runOK_succ (f : Nat → Nat) (n c : Nat) :
     runOK f (n + 1) c = Bool.rec false (runOK f n (f c)) (Nat.ble 32 (f c)) := rfl
 
 theorem loopA_succ (f : Nat → Nat) (n a : Nat) :
     loopA f n (a + 1) = Bool.rec false (loopA f n a) (runOK f n (a + 1)) := rfl
-
-theorem loopB_succ (f : Nat → Nat) (n s b : Nat) :
-    loopB f n s (b + 1) = Bool.rec false (loopB f n s b) (runOK f n (s ^^^ (b + 1))) := rfl
-
-theorem loopK_succ (f : Nat → Nat) (n s : Nat) :
-    loopK f (n + 1) s = Bool.rec false (loopK f n (f s)) (loopB f n (f s) 31) := rfl
 
 theorem boolrec_true {p q : Bool} (h : (Bool.rec false q p : Bool) = true) : p = true ∧ q = true := by
   cases p
@@ -373,37 +361,6 @@ theorem loopA_spec (f : Nat → Nat) (n : Nat) : ∀ A, loopA f n A = true →
     · subst ha; exact runOK_spec f n _ hr
     · exact ih hrest a h1 (by omega)
 
-theorem loopB_spec (f : Nat → Nat) (n s : Nat) : ∀ B, loopB f n s B = true →
-    ∀ b, 1 ≤ b → b ≤ B → runOK f n (s ^^^ b) = true := by
-  intro B
-  induction B with
-  | zero => intro _ b h1 h2; omega
-  | succ B ih =>
-    intro h b h1 h2
-    rw [loopB_succ] at h
-    obtain ⟨hr, hrest⟩ := boolrec_true h
-    by_cases hb : b = B + 1
-    · subst hb; exact hr
-    · exact ih hrest b h1 (by omega)
-
-theorem loopK_spec (f : Nat → Nat) : ∀ n s, loopK f n s = true →
-    ∀ k2 b k1, 1 ≤ k2 → 1 ≤ b → b < 32 → 1 ≤ k1 → k1 + k2 ≤ n →
-      32 ≤ iter f k1 (iter f k2 s ^^^ b) := by
-  intro n
-  induction n with
-  | zero => intro s _ k2 b k1 h1 _ _ h4 h5; omega
-  | succ n ih =>
-    intro s h k2 b k1 h1 h2 h3 h4 h5
-    rw [loopK_succ] at h
-    obtain ⟨hB, hrest⟩ := boolrec_true h
-    cases k2 with
-    | zero => omega
-    | succ j =>
-      cases j with
-      | zero =>
-        exact runOK_spec f n _ (loopB_spec f n (f s) 31 hB b h2 (by omega)) k1 h4 (by omega)
-      | succ i => exact ih (f s) hrest (i + 1) b k1 (by omega) h2 h3 h4 (by omega)
-
 /-- iterates of two functions that agree on an invariant range. -/
 theorem iter_congr (f g : Nat → Nat) (B : Nat) (hfg : ∀ c, c < B → f c = g c)
     (hg : ∀ c, g c < B) : ∀ k c, c < B → iter f k c = iter g k c := by
@@ -426,19 +383,6 @@ theorem LinReg.order_of_loopA (h : LinReg W G) (f : Nat → Nat)
   intro a h1 h2 k h3 h4
   rw [← iter_congr f (mulX W G) _ hf h.mulX_lt k a (Nat.lt_of_lt_of_le h2 (le32_pow W))]
   exact loopA_spec f K 31 hchk a h1 (by omega) k h3 h4
-
-theorem LinReg.triple_of_loopK (h : LinReg W G) (f : Nat → Nat)
-    (hf : ∀ c, c < 2 ^ (W + 5) → f c = mulX W G c) (N a : Nat) (ha : a < 32)
-    (hchk : loopK f N a = true) :
-    ∀ k2 b k1, 1 ≤ k2 → 1 ≤ b → b < 32 → 1 ≤ k1 → k1 + k2 ≤ N →
-      32 ≤ iter (mulX W G) k1 (iter (mulX W G) k2 a ^^^ b) := by
-  intro k2 b k1 h1 h2 h3 h4 h5
-  have ha' : a < 2 ^ (W + 5) := Nat.lt_of_lt_of_le ha (le32_pow W)
-  have e1 := iter_congr f (mulX W G) _ hf h.mulX_lt k2 a ha'
-  have hlt : iter (mulX W G) k2 a ^^^ b < 2 ^ (W + 5) :=
-    Nat.xor_lt_two_pow (h.iter_lt k2 a ha') (Nat.lt_of_lt_of_le h3 (le32_pow W))
-  rw [← iter_congr f (mulX W G) _ hf h.mulX_lt k1 _ hlt, ← e1]
-  exact loopK_spec f N a hchk k2 b k1 h1 h2 h3 h4 h5
 
 end Transfer
 
@@ -528,89 +472,6 @@ theorem bech32_detects_two (hrp : List Char) (d d' : List Nat) (m : Bool)
     bech32Verify hrp d' m = false :=
   bech32_detect hrp d d' m 2 hv hlen hd hd' hh
     (fun e he hw hl => bech32_linReg.weight_two 1022 bech32_order e he hw (by omega))
-
-/-! #### three errors: `x^k1 (x^k2 a ^^^ b) ≥ 32` for `k1 + k2 ≤ 88`, one kernel run per first symbol `a` -/
-
-theorem bech32_chk3_1 : loopK bech32X 88 1 = true := by decide +kernel
-theorem bech32_chk3_2 : loopK bech32X 88 2 = true := by decide +kernel
-theorem bech32_chk3_3 : loopK bech32X 88 3 = true := by decide +kernel
-theorem bech32_chk3_4 : loopK bech32X 88 4 = true := by decide +kernel
-theorem bech32_chk3_5 : loopK bech32X 88 5 = true := by decide +kernel
-theorem bech32_chk3_6 : loopK bech32X 88 6 = true := by decide +kernel
-theorem bech32_chk3_7 : loopK bech32X 88 7 = true := by decide +kernel
-theorem bech32_chk3_8 : loopK bech32X 88 8 = true := by decide +kernel
-theorem bech32_chk3_9 : loopK bech32X 88 9 = true := by decide +kernel
-theorem bech32_chk3_10 : loopK bech32X 88 10 = true := by decide +kernel
-theorem bech32_chk3_11 : loopK bech32X 88 11 = true := by decide +kernel
-theorem bech32_chk3_12 : loopK bech32X 88 12 = true := by decide +kernel
-theorem bech32_chk3_13 : loopK bech32X 88 13 = true := by decide +kernel
-theorem bech32_chk3_14 : loopK bech32X 88 14 = true := by decide +kernel
-theorem bech32_chk3_15 : loopK bech32X 88 15 = true := by decide +kernel
-theorem bech32_chk3_16 : loopK bech32X 88 16 = true := by decide +kernel
-theorem bech32_chk3_17 : loopK bech32X 88 17 = true := by decide +kernel
-theorem bech32_chk3_18 : loopK bech32X 88 18 = true := by decide +kernel
-theorem bech32_chk3_19 : loopK bech32X 88 19 = true := by decide +kernel
-theorem bech32_chk3_20 : loopK bech32X 88 20 = true := by decide +kernel
-theorem bech32_chk3_21 : loopK bech32X 88 21 = true := by decide +kernel
-theorem bech32_chk3_22 : loopK bech32X 88 22 = true := by decide +kernel
-theorem bech32_chk3_23 : loopK bech32X 88 23 = true := by decide +kernel
-theorem bech32_chk3_24 : loopK bech32X 88 24 = true := by decide +kernel
-theorem bech32_chk3_25 : loopK bech32X 88 25 = true := by decide +kernel
-theorem bech32_chk3_26 : loopK bech32X 88 26 = true := by decide +kernel
-theorem bech32_chk3_27 : loopK bech32X 88 27 = true := by decide +kernel
-theorem bech32_chk3_28 : loopK bech32X 88 28 = true := by decide +kernel
-theorem bech32_chk3_29 : loopK bech32X 88 29 = true := by decide +kernel
-theorem bech32_chk3_30 : loopK bech32X 88 30 = true := by decide +kernel
-theorem bech32_chk3_31 : loopK bech32X 88 31 = true := by decide +kernel
-
-theorem bech32_chk3 : ∀ a, 1 ≤ a → a < 32 → loopK bech32X 88 a = true := by
-  intro a h1 h2
-  have h : a = 1 ∨ a = 2 ∨ a = 3 ∨ a = 4 ∨ a = 5 ∨ a = 6 ∨ a = 7 ∨ a = 8 ∨ a = 9 ∨ a = 10 ∨ a = 11 ∨ a = 12 ∨ a = 13 ∨ a = 14 ∨ a = 15 ∨ a = 16 ∨ a = 17 ∨ a = 18 ∨ a = 19 ∨ a = 20 ∨ a = 21 ∨ a = 22 ∨ a = 23 ∨ a = 24 ∨ a = 25 ∨ a = 26 ∨ a = 27 ∨ a = 28 ∨ a = 29 ∨ a = 30 ∨ a = 31 := by omega
-  rcases h with rfl | rfl | rfl | rfl | rfl | rfl | rfl | rfl | rfl | rfl | rfl | rfl | rfl | rfl | rfl | rfl | rfl | rfl | rfl | rfl | rfl | rfl | rfl | rfl | rfl | rfl | rfl | rfl | rfl | rfl | rfl
-  · exact bech32_chk3_1
-  · exact bech32_chk3_2
-  · exact bech32_chk3_3
-  · exact bech32_chk3_4
-  · exact bech32_chk3_5
-  · exact bech32_chk3_6
-  · exact bech32_chk3_7
-  · exact bech32_chk3_8
-  · exact bech32_chk3_9
-  · exact bech32_chk3_10
-  · exact bech32_chk3_11
-  · exact bech32_chk3_12
-  · exact bech32_chk3_13
-  · exact bech32_chk3_14
-  · exact bech32_chk3_15
-  · exact bech32_chk3_16
-  · exact bech32_chk3_17
-  · exact bech32_chk3_18
-  · exact bech32_chk3_19
-  · exact bech32_chk3_20
-  · exact bech32_chk3_21
-  · exact bech32_chk3_22
-  · exact bech32_chk3_23
-  · exact bech32_chk3_24
-  · exact bech32_chk3_25
-  · exact bech32_chk3_26
-  · exact bech32_chk3_27
-  · exact bech32_chk3_28
-  · exact bech32_chk3_29
-  · exact bech32_chk3_30
-  · exact bech32_chk3_31
-
-theorem bech32_triple : ∀ a, 1 ≤ a → a < 32 → ∀ k2 b k1, 1 ≤ k2 → 1 ≤ b → b < 32 → 1 ≤ k1 →
-    k1 + k2 ≤ 88 → 32 ≤ iter (mulX 25 bech32G) k1 (iter (mulX 25 bech32G) k2 a ^^^ b) :=
-  fun a h1 h2 => bech32_linReg.triple_of_loopK bech32X bech32X_eq 88 a h2 (bech32_chk3 a h1 h2)
-
-/-- **Bech32 / Bech32m: every triple substitution in a data part of ≤ 89 symbols is detected**
-(BIP-173 strings have at most 88 data symbols). -/
-theorem bech32_detects_three (hrp : List Char) (d d' : List Nat) (m : Bool)
-    (hv : bech32Verify hrp d m = true) (hlen : d'.length = d.length) (hL : d.length ≤ 89)
-    (hd : ∀ x ∈ d, x < 32) (hd' : ∀ x ∈ d', x < 32) (hh : hamming d d' = 3) :
-    bech32Verify hrp d' m = false :=
-  bech32_detect hrp d d' m 3 hv hlen hd hd' hh
-    (fun e he hw hl => bech32_linReg.weight_three 88 bech32_triple e he hw (by omega))
 
 /-! ### CashAddr (40-bit register) -/
 
